@@ -315,6 +315,12 @@ func (c *Ctx) c04AllSets() {
 	c.noLockCopiesRule("R12", c.clientFuncs())
 	r.Rule("R13", "a registration registers: every path through Handle, HandleBG and HandleFunc reaches the set's add (no 'already registered' shortcut that hands back another handler's Remover - closures of one function literal are different handlers)")
 	c.registrationAddsRule("R13")
+	r.Rule("R14", "each handler's goroutine runs that handler: a closure started by a go statement inside a loop captures no variable that lives outside the loop and is assigned inside it (under go.mod's 'go 1.13' the range variable is one cell for the whole loop - every goroutine would run the handler stored last)")
+	c.loopCaptureRule("R14")
+	r.Rule("R15", "each incoming event is dispatched: in the receive goroutine every accepted line is handed over by a blocking send before the next read (shared with C03.R1) - a line the reader deals with itself 'because the queue is full' (answering a PING from recv, say) never reaches the handlers registered for it")
+	if pf := c.producerFrame(); r.Anchor("R15", "the receive goroutine that feeds the inbound queue", pf != nil) {
+		c.handoverRule("R15", pf.Member)
+	}
 	r.Rule("R11", "registering or removing a handler takes no lock but the handler set's own: in everything Handle, HandleBG, HandleFunc and a Remover's Remove reach by plain calls, the only lock acquired is the set's and nothing waits (no channel operation, WaitGroup.Wait, Cond.Wait or Sleep: a handler may remove itself) (the teardown holds the connection mutex while it waits for a running handler, so a registration that touched it from inside a handler would deadlock the disconnect)")
 	c.registrationLocksRule("R11")
 	cd := a.ConnDispatch
@@ -495,4 +501,49 @@ func (c *Ctx) registrationAddsRule(rule string) {
 		r.Add(rule, "registration-adds:"+c.FuncKey(f), c.Pos(f.Pos()), c.FuncKey(f), "a registration always adds the handler", ok, why)
 	}
 	r.Floor(rule, "registration API functions", n, 2)
+}
+
+// loopCaptureRule: every goroutine started inside a loop works on its own
+// iteration's values: a closure started by a go statement in a loop captures
+// no variable that lives outside the loop and is assigned inside it (the
+// per-loop iteration variable of Go before 1.22 - go.mod says which - is one
+// cell shared by all iterations: every goroutine then sees the last value).
+// For the dispatcher that is "each handler runs once" turned into "the last
+// handler runs n times".
+func (c *Ctx) loopCaptureRule(rule string) {
+	r := c.R
+	n := 0
+	for _, fn := range c.ModFuncs {
+		if fn.Package() != c.Client && fn.Package() != c.State {
+			continue
+		}
+		funcInstrs(fn, func(in ssa.Instruction) {
+			g, ok := in.(*ssa.Go)
+			if !ok || c.LoopDepth(g.Block()) == 0 {
+				return
+			}
+			mc, ok := g.Call.Value.(*ssa.MakeClosure)
+			if !ok {
+				return
+			}
+			n++
+			gd := c.LoopDepth(g.Block())
+			bad := ""
+			for _, b := range mc.Bindings {
+				al, isA := b.(*ssa.Alloc)
+				if !isA || c.LoopDepth(al.Block()) >= gd {
+					continue
+				}
+				for _, ref := range *al.Referrers() {
+					if st, isS := ref.(*ssa.Store); isS && st.Addr == ssa.Value(al) && st.Parent() == fn && c.LoopDepth(st.Block()) >= gd {
+						bad = "captures " + al.Comment + ", one variable for the whole loop, assigned in the loop at " + c.InstrPos(st)
+					}
+				}
+			}
+			r.Add(rule, "loop-capture:"+c.FuncKey(fn), c.InstrPos(g), c.FuncKey(fn), "a goroutine started in a loop works on its own iteration's values", bad == "", bad)
+		})
+	}
+	// no floor: where the per-handler goroutines are started is pinned by C16.R2; a dispatcher that starts them
+	// through a named function has nothing to capture
+	r.Add(rule, "loop-capture-examined", "-", "", "closures started as goroutines inside loops examined", true, fmt.Sprintf("%d", n))
 }
